@@ -176,8 +176,9 @@ def run_one(job):
                 break
             if rcq == 2:
                 det.append((prop, "inconclusive: " + next((l for l in outq.splitlines() if l.startswith("INCONCLUSIVE")), "")[:160]))
-                break
-        r["status"] = "detected" if det and not det[0][1].startswith("inconclusive") else ("inconclusive" if det else "SURVIVED")
+                continue        # another check anchored in the file may still decide
+        hit = [x for x in det if not x[1].startswith("inconclusive")]
+        r["status"] = "detected" if hit else ("inconclusive" if det else "SURVIVED")
         r["by"] = det
         r["checks"] = props
         return r
